@@ -759,7 +759,7 @@ class SceneMachine(Machine):
                        "object lifetime: gc disabled, explicit gc / keep / drop decide when detached objects die"]
     assumptions = [
         "rtol 1e-9 plus an absolute floor of 1e-12*max|reference| (legitimate noise measured <= 5e-15)",
-        "scenes always have a geometry, an atomic-data provider and (beams) an attenuator: prerequisites are never unset",
+        "a plasma's geometry / provider and a laser's spectrum may be unset and restored (documented refusals in between are accepted, the stored value counts); a beam always keeps its plasma, provider and attenuator",
         "user children of plasma / beam / laser nodes are small emitting spheres away from every bounding volume ('riders') and beams parented to the first plasma node",
         "user callbacks on plasma.notifier / laser.notifier only re-assign an attribute of another node to its current value and never raise",
         "a model instance is attached to one emitter at a time",
